@@ -78,11 +78,23 @@ def Chain.count (tbl : List Nat) (c : Chain) : Nat :=
   let out := countRows m c.lim
   if out.length = 1 then out.headD 0 else out.length
 
+/-- the chains whose SELECT the single-record finders send (and which the handle they return carries) -/
+def Chain.firstChain (c : Chain) : Chain := (c.limit 1).orderBy pkAsc
+def Chain.lastChain (c : Chain) : Chain := (c.limit 1).orderBy pkDesc
+def Chain.takeChain (c : Chain) : Chain := c.limit 1
+
+/-- what the recording driver sees of a chain's SELECT: ORDER BY columns (identity, DESC), LIMIT, OFFSET -/
+def Chain.shape (c : Chain) : List (Nat × Bool) × Option Int × Option Int :=
+  (c.order.map (fun o => (o.tag, o.desc)), effLimitOf c.lim, effOffsetOf c.lim)
+
 /-- the chain state of the handle `Count` returns: SELECT and ORDER BY are restored by the deferred funcs,
     WHERE / LIMIT were never touched -/
 def Chain.afterCount (c : Chain) : Chain := c
 
 /-- ORDER BY of the query `Count` sends (no GROUP BY): none -/
 def Chain.countQueryOrder (_c : Chain) : List OrdCol := []
+
+/-- the chain whose SELECT `Count` sends -/
+def Chain.countChain (c : Chain) : Chain := { c with order := c.countQueryOrder }
 
 end Gorm
